@@ -107,6 +107,28 @@ def range_contains(m, st, fr, callee, args):
     return b_and(f_cmp("Le", r.fields[0], x), f_cmp("Le", x, r.fields[1]))
 
 
+@M.add(r"core::ops::Range::<f64>::contains::<f64>")
+def range_halfopen_contains(m, st, fr, callee, args):
+    r = deref(m, args[0])
+    x = deref(m, args[1])
+    return b_and(f_cmp("Le", r.fields[0], x), f_cmp("Lt", x, r.fields[1]))
+
+
+@M.add(r"core::ops::RangeFrom::<f64>::contains::<f64>")
+def range_from_contains(m, st, fr, callee, args):
+    return f_cmp("Le", deref(m, args[0]).fields[0], deref(m, args[1]))
+
+
+@M.add(r"core::ops::RangeTo::<f64>::contains::<f64>")
+def range_to_contains(m, st, fr, callee, args):
+    return f_cmp("Lt", deref(m, args[1]), deref(m, args[0]).fields[0])
+
+
+@M.add(r"core::ops::RangeToInclusive::<f64>::contains::<f64>")
+def range_to_incl_contains(m, st, fr, callee, args):
+    return f_cmp("Le", deref(m, args[1]), deref(m, args[0]).fields[0])
+
+
 @M.add(r"num_traits::pow::<f64>|num_traits::pow::pow::<f64>")
 def nt_pow(m, st, fr, callee, args):
     """repeated multiplication (the real implementation squares and multiplies: the same real number)"""
